@@ -4,8 +4,9 @@ CONSTANTS
   MaxRec = 6
   MemSizes = {0, 1, 2, 3}
   FileModes = {TRUE, FALSE}
-  Palettes = {0, 4}
+  Palettes = {0}
   Kinds = {}
+  RestartResizes = FALSE
   AnonModes = {FALSE}
   AllowWindow = FALSE
   EmitEdges = TRUE
